@@ -359,6 +359,18 @@ def s_endswith(ex, st, recv, args, kwargs, cx):
     yield st, ex.o.bool_(z3.SuffixOf(ex.o.s(args[0]), ex.o.s(recv)))
 
 
+def y_strip(ex, st, recv, args, kwargs, cx):
+    """bytes.strip(): an uninterpreted function that never lengthens and is idempotent"""
+    if args or kwargs:
+        raise Unsupported("bytes.strip with arguments")
+    f = ex.w.fun("bytes_strip", ByteSeq, ByteSeq)
+    y = ex.o.y(recv)
+    st = st.clone()
+    st.assume(z3.Length(f(y)) <= z3.Length(y))
+    st.assume(f(f(y)) == f(y))
+    yield st, ex.o.bytes_(f(y))
+
+
 def s_replace(ex, st, recv, args, kwargs, cx):
     f = ex.w.fun("str_replace_all", "str", "str", "str", "str")
     yield st, ex.o.str_(f(ex.o.s(recv), ex.o.s(args[0]), ex.o.s(args[1])))
@@ -380,7 +392,7 @@ trusted("bytes.hex/bytes.fromhex", "fromhex(hex(b)) == b; fromhex raises ValueEr
 STR_METHODS = {
     ("str", "encode"): s_encode, ("bytes", "decode"): y_decode, ("str", "lower"): s_lower,
     ("str", "upper"): s_upper, ("str", "strip"): s_strip, ("str", "partition"): s_partition,
-    ("str", "rpartition"): s_rpartition, ("str", "startswith"): s_startswith, ("str", "endswith"): s_endswith, ("str", "replace"): s_replace,
+    ("str", "rpartition"): s_rpartition, ("str", "startswith"): s_startswith, ("str", "endswith"): s_endswith, ("bytes", "strip"): y_strip, ("str", "replace"): s_replace,
     ("bytes", "hex"): y_hex,
 }
 
